@@ -18,13 +18,19 @@
     model; no Python counterpart) and, with a bounded table, [Err ERuntime]:
     a swap refused by the full-table pre-check ([RuntimeError] of dd, raised
     BEFORE the swap writes anything).  The theorems that describe a completed
-    reordering list it as a possible outcome; what the manager looks like then
-    (it is the state between two swaps: [Stp]) is the content of the SAFETY
-    theorems [C07b_reorder_safe], [C07b_reorder_pub_safe], [C07b_apply_sifting_safe],
-    which hold for every outcome; with an unbounded table ([max_nodes = None])
-    the outcome is excluded ([C07b_unbounded]).
+    reordering are three-way; their MIDDLE disjunct says what holds when the
+    reordering stops that way: the table is bounded ([is_Some (max_nodes s)]),
+    and the manager is the one between two swaps — [Stp L s s'] (well formed,
+    exact counts for the same ledger, every held reference keeps identity and
+    function), the same declared variables, and for the top-level functions
+    the same [rr] (the public entry points: [Inv], [Counts], [last_len]
+    restored, [keepsH], [rr]).  The SAFETY theorems [C07b_reorder_safe],
+    [C07b_reorder_pub_safe], [C07b_reorder_to_pairs_pub_safe],
+    [C07b_apply_sifting_safe] state the same for every outcome; with an
+    unbounded table ([max_nodes = None]) the outcome is excluded
+    ([C07b_unbounded], [C07b_unbounded_reorder], [C07b_unbounded_reorder_to_pairs(_pub)]).
     [rr s := (rctx s, roots s, max_nodes s)]. *)
-From DD Require Import Sift9.
+From DD Require Import SiftFull.
 
 (** one adjacent swap, arguments in either order *)
 Theorem C07b_swap_adj L s al i j r s' :
@@ -49,25 +55,29 @@ Theorem C07b_shift_loop L s0 a (down : bool) : Inv s0 → ∀ n i al sizes s r s
   (if down then a ≤ i ∧ i + n < nvars s0 else i ≤ a ∧ n ≤ i ∧ i < nvars s0) →
   (∀ p v, (p, v) ∈ sizes → Visited L s0 a p v) →
   shift_loop n i down al sizes s = (r, s') →
-  r = Err EOracle ∨ r = Err ERuntime ∨
+  r = Err EOracle ∨
+  (r = Err ERuntime ∧ is_Some (max_nodes s) ∧ Stp L s0 s' ∧
+   dom (vars s') = dom (vars s0)) ∨
   ∃ sizes' al', r = Ok (sizes', al') ∧ Stp L s0 s' ∧ levels_ok s' al' ∧
     vperm (mv a (if down then i + n else i - n)) s0 s' ∧
     (∀ p v, (p, v) ∈ sizes' → Visited L s0 a p v) ∧
     (∀ p, p ∈ sizes.*1 → p ∈ sizes'.*1) ∧
     (0 < n → ∀ p, Sift1.between i (if down then i + n else i - n) p → p ∈ sizes'.*1) ∧
     (n = 0 → sizes' = sizes).
-Proof. exact (shift_loop_spec L s0 a down). Qed.
+Proof. exact (shift_loop_full L s0 a down). Qed.
 
 Theorem C07b_shift L s a e al r s' :
   Gd L s → levels_ok s al → a < nvars s → e < nvars s →
   shift a e al s = (r, s') →
-  r = Err EOracle ∨ r = Err ERuntime ∨
+  r = Err EOracle ∨
+  (r = Err ERuntime ∧ is_Some (max_nodes s) ∧ Stp L s s' ∧
+   dom (vars s') = dom (vars s)) ∨
   ∃ sizes al', r = Ok (sizes, al') ∧ Stp L s s' ∧ levels_ok s' al' ∧
     vperm (mv a e) s s' ∧
     (∀ p v, (p, v) ∈ sizes → Visited L s a p v) ∧
     (a ≠ e → ∀ p, Sift1.between a e p → p ∈ sizes.*1) ∧
     (a = e → sizes = []).
-Proof. exact (shift_spec L s a e al r s'). Qed.
+Proof. exact (shift_full L s a e al r s'). Qed.
 
 (** the resulting [vars], exactly *)
 Theorem C07b_vperm_exact π s s' :
@@ -86,9 +96,11 @@ Theorem C07b_sort_to_order order s L r s' :
   (∀ v l, order !! v = Some l → l < nvars s) →
   (∀ u, u ∈ roots s → held L u) →
   sort_to_order order s = (r, s') →
-  r = Err EOracle ∨ r = Err ERuntime ∨
+  r = Err EOracle ∨
+  (r = Err ERuntime ∧ is_Some (max_nodes s) ∧ Stp L s s' ∧
+   dom (vars s') = dom (vars s) ∧ rr s' = rr s) ∨
   (r = Ok tt ∧ Stp L s s' ∧ vars s' = order ∧ rr s' = rr s).
-Proof. exact (sort_to_order_correct order s L r s'). Qed.
+Proof. exact (sort_to_order_full order s L r s'). Qed.
 
 Theorem C07b_sort_to_order_reject order s :
   nvars s ≠ size order → sort_to_order order s = (Err EValue, s).
@@ -100,10 +112,12 @@ Theorem C07b_reorder_to_pairs pairs s L r s' :
   NoDup (pairs.*1 ++ pairs.*2) →
   (∀ v, v ∈ pairs.*1 ++ pairs.*2 → is_Some (vars s !! v)) →
   reorder_to_pairs pairs s = (r, s') →
-  r = Err EOracle ∨ r = Err ERuntime ∨
+  r = Err EOracle ∨
+  (r = Err ERuntime ∧ is_Some (max_nodes s) ∧ Stp L s s' ∧
+   dom (vars s') = dom (vars s) ∧ rr s' = rr s) ∨
   (r = Ok tt ∧ Stp L s s' ∧ dom (vars s') = dom (vars s) ∧ rr s' = rr s ∧
    ∀ x y, (x, y) ∈ pairs → adj s' x y).
-Proof. exact (reorder_to_pairs_correct pairs s L r s'). Qed.
+Proof. exact (reorder_to_pairs_full pairs s L r s'). Qed.
 
 (** ** Sifting.  Size canonicity: the number of nodes of a manager without
     unreferenced nodes is determined by the order and the held functions *)
@@ -116,19 +130,23 @@ Proof. exact (size_determined L s1 s2). Qed.
 Theorem C07b_reorder_var L s var al r s' :
   Gd L s → nozero s → levels_ok s al → is_Some (vars s !! var) →
   reorder_var var al s = (r, s') →
-  r = Err EOracle ∨ r = Err ERuntime ∨
+  r = Err EOracle ∨
+  (r = Err ERuntime ∧ is_Some (max_nodes s) ∧ Stp L s s' ∧
+   dom (vars s') = dom (vars s)) ∨
   ∃ k al' lv, r = Ok (k, al') ∧ vars s !! var = Some lv ∧
     Stp L s s' ∧ levels_ok s' al' ∧ vperm (mv lv k) s s' ∧ len s' ≤ len s.
-Proof. exact (reorder_var_spec L s var al r s'). Qed.
+Proof. exact (reorder_var_full L s var al r s'). Qed.
 
 (** [_apply_sifting] *)
 Theorem C07b_apply_sifting s L r s' :
   Inv s → Counts s L → last_len s = None →
   apply_sifting s = (r, s') →
-  r = Err EOracle ∨ r = Err ERuntime ∨
+  r = Err EOracle ∨
+  (r = Err ERuntime ∧ is_Some (max_nodes s) ∧ Stp L s s' ∧
+   dom (vars s') = dom (vars s) ∧ rr s' = rr s) ∨
   (r = Ok tt ∧ Gd L s' ∧ nozero s' ∧ rr s' = rr s ∧
    dom (vars s') = dom (vars s) ∧ keepsH L s s' ∧ len s' ≤ len s).
-Proof. exact (apply_sifting_spec s L r s'). Qed.
+Proof. exact (apply_sifting_full s L r s'). Qed.
 
 (** the premise of the decorator theorems of [Proofs/Dynamic.v] *)
 Theorem C07b_sifting_ok' : sifting_ok'.
@@ -145,6 +163,20 @@ Theorem C07b_unbounded o s r s' :
   max_nodes s = None → reorder_pub o s = (r, s') → max_nodes s' = None ∧ r ≠ Err ERuntime.
 Proof. exact (nft_reorder_pub o s r s'). Qed.
 
+Theorem C07b_unbounded_reorder o s r s' :
+  max_nodes s = None → reorder o s = (r, s') → max_nodes s' = None ∧ r ≠ Err ERuntime.
+Proof. exact (nft_reorder o s r s'). Qed.
+
+Theorem C07b_unbounded_reorder_to_pairs p s r s' :
+  max_nodes s = None → reorder_to_pairs p s = (r, s') →
+  max_nodes s' = None ∧ r ≠ Err ERuntime.
+Proof. exact (nft_reorder_to_pairs p s r s'). Qed.
+
+Theorem C07b_unbounded_reorder_to_pairs_pub p s r s' :
+  max_nodes s = None → reorder_to_pairs_pub p s = (r, s') →
+  max_nodes s' = None ∧ r ≠ Err ERuntime.
+Proof. exact (nft_reorder_to_pairs_pub p s r s'). Qed.
+
 (** [reorder] with ANY argument never damages the manager *)
 Theorem C07b_reorder_safe o s L r s' :
   Gd L s → reorder o s = (r, s') →
@@ -160,12 +192,22 @@ Theorem C07b_reorder_pub_safe o s L r s' :
    dom (vars s') = dom (vars s) ∧ keepsH L s s' ∧ rr s' = rr s).
 Proof. exact (reorder_pub_safe o s L r s'). Qed.
 
+Theorem C07b_reorder_to_pairs_pub_safe pairs s L r s' :
+  Inv s → Counts s L → reorder_to_pairs_pub pairs s = (r, s') →
+  r = Err EOracle ∨
+  (Inv s' ∧ Counts s' L ∧ last_len s' = last_len s ∧
+   dom (vars s') = dom (vars s) ∧ keepsH L s s' ∧ rr s' = rr s).
+Proof. exact (reorder_to_pairs_pub_safe pairs s L r s'). Qed.
+
 Theorem C07b_reorder_pub_sift s L r s' :
   Inv s → Counts s L → reorder_pub None s = (r, s') →
-  r = Err EOracle ∨ r = Err ERuntime ∨
+  r = Err EOracle ∨
+  (r = Err ERuntime ∧ is_Some (max_nodes s) ∧ Inv s' ∧ Counts s' L ∧
+   last_len s' = last_len s ∧ dom (vars s') = dom (vars s) ∧ keepsH L s s' ∧
+   rr s' = rr s) ∨
   (r = Ok tt ∧ Inv s' ∧ Counts s' L ∧ last_len s' = last_len s ∧ nozero s' ∧
    dom (vars s') = dom (vars s) ∧ keepsH L s s' ∧ rr s' = rr s ∧ len s' ≤ len s).
-Proof. exact (reorder_pub_sift s L r s'). Qed.
+Proof. exact (reorder_pub_sift_full s L r s'). Qed.
 
 Theorem C07b_reorder_pub_order order s L r s' :
   Inv s → Counts s L →
@@ -174,21 +216,27 @@ Theorem C07b_reorder_pub_order order s L r s' :
   (∀ v l, order !! v = Some l → l < nvars s) →
   (∀ u, u ∈ roots s → held L u) →
   reorder_pub (Some order) s = (r, s') →
-  r = Err EOracle ∨ r = Err ERuntime ∨
+  r = Err EOracle ∨
+  (r = Err ERuntime ∧ is_Some (max_nodes s) ∧ Inv s' ∧ Counts s' L ∧
+   last_len s' = last_len s ∧ dom (vars s') = dom (vars s) ∧ keepsH L s s' ∧
+   rr s' = rr s) ∨
   (r = Ok tt ∧ Inv s' ∧ Counts s' L ∧ last_len s' = last_len s ∧ vars s' = order ∧
    keepsH L s s' ∧ rr s' = rr s).
-Proof. exact (reorder_pub_order order s L r s'). Qed.
+Proof. exact (reorder_pub_order_full order s L r s'). Qed.
 
 Theorem C07b_reorder_to_pairs_pub pairs s L r s' :
   Inv s → Counts s L →
   NoDup (pairs.*1 ++ pairs.*2) →
   (∀ v, v ∈ pairs.*1 ++ pairs.*2 → is_Some (vars s !! v)) →
   reorder_to_pairs_pub pairs s = (r, s') →
-  r = Err EOracle ∨ r = Err ERuntime ∨
+  r = Err EOracle ∨
+  (r = Err ERuntime ∧ is_Some (max_nodes s) ∧ Inv s' ∧ Counts s' L ∧
+   last_len s' = last_len s ∧ dom (vars s') = dom (vars s) ∧ keepsH L s s' ∧
+   rr s' = rr s) ∨
   (r = Ok tt ∧ Inv s' ∧ Counts s' L ∧ last_len s' = last_len s ∧
    dom (vars s') = dom (vars s) ∧ keepsH L s s' ∧ rr s' = rr s ∧
    ∀ x y, (x, y) ∈ pairs → adj s' x y).
-Proof. exact (reorder_to_pairs_pub_correct pairs s L r s'). Qed.
+Proof. exact (reorder_to_pairs_pub_full pairs s L r s'). Qed.
 
 (** with an empty oracle tape (the state between two driver operations)
     there is no oracle error *)
